@@ -28,6 +28,11 @@ type mwSpec struct{ pkg, typ string }
 var middlewares = []mwSpec{{"stream", "Stream"}, {"trace", "Tracer"}, {"connlimit", "ConnLimiter"}, {"ratelimit", "TokenLimiter"}, {"cbreaker", "CircuitBreaker"}, {"roundrobin", "RoundRobin"}, {"roundrobin", "Rebalancer"}, {"buffer", "Buffer"}}
 
 func runC20(p *Prog, r *Report) {
+	// R12: a limiter that is not at its limit stays out of the way on later requests too: counts are given back under the key they were taken with (shared with C04.R2); R13: side effects of a trip do not hold up requests (shared with C18.R4)
+	r.Borrow(p, runC04, map[string]string{"C04.R2": "C20.R12"}, nil)
+	r.Borrow(p, runC18, map[string]string{"C18.R4": "C20.R13"}, nil)
+	// R11: every middleware's error handler is non-nil whatever options were given (defaulted after the options ran)
+	checkErrHandlerDefaulted(p, r, "C20.R11", nil)
 	n := 0
 	for _, mw := range middlewares {
 		t := p.Named(mw.pkg, mw.typ)
@@ -327,6 +332,28 @@ func checkDelegate(p *Prog, r *Report, rule string, T *types.Named, inner, name 
 	}
 	r.Check(ok, rule, what+": delegates to the wrapped writer whenever it supports "+name, p.InstrPos(del), "delegate call on the assertion-ok edge, on every path of it, no other condition",
 		name+" is not forwarded to the wrapped writer unconditionally when it supports it (an extra condition, e.g. 'nothing written yet', swallows the call: a handler flushing its headers early never reaches the client)")
+	// ... and it does nothing else to the response on the way: before the delegate call the wrapped writer is
+	// not used otherwise and no other method of the wrapper runs (a Flush in front of Hijack puts an implicit
+	// 200 head on the wire ahead of the handler's own status)
+	var extra ssa.Instruction
+	for in := range Reach(m, nil, isOnly(del), nil) {
+		c, isCall := in.(ssa.CallInstruction)
+		if !isCall || in == del || isLoggerCall(in) {
+			continue
+		}
+		cc := c.Common()
+		if cc.IsInvoke() && (isFieldLoad(cc.Value, T, inner) || func() bool {
+			ex, ok := cc.Value.(*ssa.Extract)
+			return ok && ex.Tuple == ssa.Value(ta)
+		}()) {
+			extra = in
+		}
+		if f := cc.StaticCallee(); f != nil && recvNamed(f) == T {
+			extra = in
+		}
+	}
+	r.Check(extra == nil, rule, what+": only delegates", p.InstrPos(del), "no other use of the wrapped writer and no other method of the wrapper before the delegate call",
+		"before handing "+name+" to the wrapped writer the wrapper calls something else on the response"+atInstr(p, extra)+": what the handler sees or sends is no longer what it would see without the wrapper")
 }
 
 func c20Wrappers(p *Prog, r *Report) {
@@ -400,15 +427,19 @@ func c20Wrappers(p *Prog, r *Report) {
 	}
 	if m := p.MethodOf(pw, "Header"); m != nil {
 		r.Fn(FName(m))
-		ok := false
+		ok := len(Returns(m)) > 0
 		for _, ret := range Returns(m) {
+			this := false
 			if c, isC := stripConv(ReturnOperand(ret, 0)).(*ssa.Call); isC {
 				if cc, isI := IsInvoke(c, "Header"); isI && isFieldLoad(cc.Value, pw, inner) {
-					ok = true
+					this = true
 				}
 			}
+			if !this {
+				ok = false
+			}
 		}
-		r.Check(ok, "C20.R3", "utils.(*ProxyWriter).Header: the wrapped writer's header map", p.FuncPos(m), "return p.w.Header()", "Header does not return the wrapped writer's header map")
+		r.Check(ok, "C20.R3", "utils.(*ProxyWriter).Header: the wrapped writer's header map", p.FuncPos(m), "return p.w.Header() on every path", "Header can return something else than the wrapped writer's live header map (a copy / snapshot): headers and trailers the handler sets afterwards never reach the client")
 	}
 	// the buffer's recorder
 	bw := namedRole(p, "buffer", "bufferWriter")
@@ -544,6 +575,7 @@ func c20Tables(p *Prog, r *Report) {
 
 func mutantsC20() []Mutant {
 	return []Mutant{
+		{Name: "trace-errhandler-not-defaulted", File: "trace/trace.go", Old: "\tif t.errHandler == nil {\n\t\tt.errHandler = utils.DefaultHandler\n\t}\n", New: "", Expect: "C20.R11"},
 		{Name: "proxywriter-no-flush", File: "utils/netutils.go", Old: "// Flush flush the writer.\nfunc (p *ProxyWriter) Flush() {\n\tif f, ok := p.w.(http.Flusher); ok {\n\t\tf.Flush()\n\t}\n}\n", New: "", Expect: "C20.R3"},
 		{Name: "next-twice", File: "stream/stream.go", Old: "\ts.next.ServeHTTP(w, req)\n}", New: "\ts.next.ServeHTTP(w, req)\n\tif s.verbose {\n\t\ts.next.ServeHTTP(w, req)\n\t}\n}", Expect: "C20.R1"},
 		{Name: "fallback-also-serves", File: "cbreaker/cbreaker.go", Old: "\t\tc.fallback.ServeHTTP(w, req)\n\t\treturn\n", New: "\t\tc.fallback.ServeHTTP(w, req)\n", Expect: "C20.R1"},
